@@ -217,6 +217,17 @@ impl AnyQ {
             Kind::Dpq => serde_json::from_str::<DPQ>(s).map(AnyQ::Dpq).map_err(|e| e.to_string()),
         }
     }
+    pub fn clone_from_q(&mut self, src: &AnyQ) {
+        match (self, src) {
+            (AnyQ::Pq(a), AnyQ::Pq(b)) => a.clone_from(b),
+            (AnyQ::Dpq(a), AnyQ::Dpq(b)) => a.clone_from(b),
+            _ => panic!("harness: clone_from of different kinds"),
+        }
+    }
+    /// (priority value, priority stamp) stored for an item
+    pub fn prio_stamp(&self, k: &KeyId) -> Option<(i32, u32)> {
+        both!(self, q => q.get_priority(k)).map(|p| (p.v, p.s))
+    }
     pub fn eq_q(&self, o: &AnyQ) -> bool {
         match (self, o) {
             (AnyQ::Pq(a), AnyQ::Pq(b)) => a == b,
